@@ -30,7 +30,7 @@ def _edge_ctor_type(c: ast.Call) -> str:
     return "?"
 
 
-@rule("C03.1", ["C03"], "split_block: which out-edges move to the tail, and when the connecting fallthrough is added", 7)
+@rule("C03.1", ["C03", "C11"], "split_block: which out-edges move to the tail, and when the connecting fallthrough is added", 7)
 def c03_1(ctx: Ctx):
     fi = ctx.repo.func("_modify.split.split_block")
     lin = linear(fi.node)
